@@ -44,7 +44,7 @@ def check(ctx):
         mk = gen_market(g)
         T, N = mk["T"], mk["N"]
         kind = g.weighted([("linear", 3), ("mlp", 2), ("prev", 3), ("naked", 1), ("bs", 2), ("ww", 2), ("modout", 1)])
-        H = 1
+        H = 1 if kind in ("bs", "ww") else g.choice([1, 1, 2, 3])      # number of hedging instruments
         thr = g.choice([x for p in mk["spot"] for x in p])
         msj = None
         tol = False
@@ -103,14 +103,16 @@ def check(ctx):
             msj = model_json(ms)
             tol = any(nm in LOG_FEATURES or nm == "time_to_maturity" for nm in names)
         hedger = Hedger(model, feats)
-        case = {"kind": kind, "features": names, "thr": rat_str(thr), "model": msj, "option": mk["option"], "primary": mk["primary"],
+        hedge = [u] + extra_hedges(torch, g, mk, H - 1)
+        case = {"kind": kind, "H": H, "features": names, "thr": rat_str(thr), "model": msj, "option": mk["option"], "primary": mk["primary"],
                 "T": T, "N": N, "spot": enc_rat(mk["spot"]), "vol": enc_rat(mk["vol"]), "strike": rat_str(mk["strike"]),
                 "dt": rat_str(mk["dt"]), "call": mk["call"], "cost": rat_str(mk["cost"])}
         with torch.no_grad():
             inject(torch, u, mk)
-            st, out, mut = call_impl(hedger.compute_hedge, d, watch=[("derivative", d)])
+            st, out, mut = call_impl(hedger.compute_hedge, d, hedge, watch=[("derivative", d)])
         if mut:
             ctx.mutated("compute_hedge", mut, case)
+        ctx.stats[f"H={H}"] += 1
         ctx.stats[f"model={kind}"] += 1
         for nm in names:
             ctx.stats[f"feature={nm}"] += 1
@@ -132,7 +134,7 @@ def check(ctx):
         changed_stat = any(max(a) != max(b) or min(a) != min(b) for a, b in zip(mk["spot"], m2["spot"]))
         with torch.no_grad():
             inject(torch, u, m2)
-            st2, out2, _ = call_impl(hedger.compute_hedge, d)
+            st2, out2, _ = call_impl(hedger.compute_hedge, d, hedge)
             inject(torch, u, mk)
         ctx.case(case | {"t": t}, nontrivial=changed_stat, tag="perturbation")
         ctx.traces += 1
